@@ -321,6 +321,48 @@ class FuncView:
             return self.resolve(defs[0], depth + 1)
         return expr
 
+    def reaching(self, name_node):
+        """The value of the definition of a local that reaches the use `name_node`, when the name has several definitions:
+        the closest `x = <value>` that dominates the use and after which no other definition of x can run before the use.
+        None when that is not a single plain assignment (loop targets, augmented assignments, unpackings)."""
+        if not isinstance(name_node, ast.Name):
+            return None
+        uid = self.cfg_id(name_node)
+        if uid is None:
+            return None
+        defs = []
+        for n in walk_no_nested(self.fi.node):
+            tg = None
+            if isinstance(n, ast.Assign):
+                flat = []
+                for t in n.targets:
+                    flat += list(ast.walk(t))
+                if any(isinstance(x, ast.Name) and x.id == name_node.id and isinstance(x.ctx, ast.Store) for x in flat):
+                    plain = len(n.targets) == 1 and isinstance(n.targets[0], ast.Name)
+                    defs.append((n, n.value if plain else None))
+            elif isinstance(n, (ast.AugAssign, ast.AnnAssign)) and isinstance(n.target, ast.Name) and n.target.id == name_node.id:
+                defs.append((n, None))
+            elif isinstance(n, (ast.For, ast.comprehension)) and any(isinstance(x, ast.Name) and x.id == name_node.id for x in ast.walk(n.target)):
+                if isinstance(n, ast.For):
+                    defs.append((n, None))
+        best = None
+        for n, val in defs:
+            did = self.cfg_id(n) if not isinstance(n, ast.For) else self.cfg.by_ast.get(id(n))
+            if did is None or did == uid or not self.cfg.dominates(did, uid):
+                continue
+            if best is None or self.cfg.dominates(best[0], did):
+                best = (did, n, val)
+        if best is None or best[2] is None:
+            return None
+        # no other definition between the chosen one and the use
+        others = [self.cfg_id(n) if not isinstance(n, ast.For) else self.cfg.by_ast.get(id(n)) for n, _ in defs if n is not best[1]]
+        for oid in others:
+            if oid is None:
+                continue
+            if self.cfg.reaches_without(best[0], oid, {uid}) and self.cfg.reaches_without(oid, uid, {best[0]}):
+                return None
+        return best[2]
+
     def _mutated_locals(self):
         m = getattr(self, "_mutated", None)
         if m is None:
